@@ -446,6 +446,7 @@ def run_quant(prop, tier, seed):
         samples += [{k: c[k] for k in ("op", "i", "j", "n", "out", "dim", "phys", "truth")} for c in cases[:2]]
     if prop == "C12":
         sorted_triples(v, system, tier, seed)
+        extreme_magnitudes(v, system, seed)
     if prop == "C11":
         import algebra
         algebra.run_algebra(v, "C11", seed)
@@ -476,6 +477,72 @@ def sorted_triples(v, system, tier, seed):
     v.extra["sorted_lists"] = res["n"]
     for k, d in res["bad"][:5]:
         v.violations.append({"prop": "C12", "key": k, "detail": d, "path": []})
+
+
+def extreme_magnitudes(v, system, seed):
+    """C12 at the edges of the magnitude types: infinities, the largest and smallest floats, integers beyond 2**53,
+    zeros of both signs - in every unit of the synthetic system.  == is reflexive, exactly one of <, ==, > holds, <= and
+    >= mirror each other, and the order is the order of the (extended) physical values; pairs closer than 1e-9 relative
+    are rounding ties and are judged for coherence only."""
+    from core import run_isolated
+    res = run_isolated(_extremes_child, system, seed)
+    v.impl += res["n"]
+    v.evaluations += res["n"]
+    v.extra["extreme_magnitude_pairs"] = res["n"]
+    seen = set()
+    for k, d in res["bad"]:
+        if k not in seen:
+            seen.add(k)
+            v.violations.append({"prop": "C12", "key": k, "detail": d, "path": []})
+
+
+def _extremes_child(system, seed):
+    d = QuantDriver(system=system, props=("C12",))
+    d.prepare()
+    inf = float("inf")
+    # (1e300 and 1e-300 rather than the very largest and smallest floats: a prefix must not push them into overflow or
+    # underflow, which would be rounding, not comparison)
+    mags = [inf, -inf, 1e300, -1e300, 1e-300, 0, 0.0, -0.0, 2 ** 53 + 1, 2 ** 200, -(2 ** 200), 1, 1.0, -1]
+    units = []
+    for q in d.pool:
+        if q.unit not in units and d.dimvec(q.unit) == d.dimvec(d.pool[0].unit) and d.usize(q.unit) is not None:
+            units.append(q.unit)
+    units = units[:4]
+    qs = [(mg, u, mg * u) for u in units for mg in mags]
+
+    def ext(mg, u):
+        """extended physical value: (class, exact value) with class -1 / 0 / +1 for -inf / finite / +inf"""
+        if mg in (inf, -inf):
+            return (1 if mg > 0 else -1, 0)
+        return (0, Fraction(mg) * d.usize(u))
+    bad, n = [], 0
+    for (ma, ua, a) in qs:
+        for (mb, ub, b) in qs:
+            n += 1
+            try:
+                r = {"==": a == b, "!=": a != b, "<": a < b, "<=": a <= b, ">": a > b, ">=": a >= b}
+            except Exception as ex:
+                bad.append(("extreme:raised:%s" % type(ex).__name__, "%r vs %r" % (a, b)))
+                continue
+            what = "%r %s vs %r %s" % (ma, ua, mb, ub)
+            if a is b and not (r["=="] and not r["!="] and not r["<"] and not r[">"] and r["<="] and r[">="]):
+                bad.append(("extreme:not-reflexive:%s" % ("infinite" if ma in (inf, -inf) else "finite"), "%s: %s" % (what, r)))
+                continue
+            # coherence, whatever the values
+            if r["=="] == r["!="] or (r["<"] + r["=="] + r[">"]) != 1 or r["<="] != (r["<"] or r["=="]) or r[">="] != (r[">"] or r["=="]):
+                bad.append(("extreme:incoherent:%s" % ("infinite" if inf in (abs(ma), abs(mb)) else "finite"), "%s: %s" % (what, r)))
+                continue
+            ea, eb = ext(ma, ua), ext(mb, ub)
+            if ea[0] == 0 and eb[0] == 0:
+                scale = max(abs(ea[1]), abs(eb[1]))
+                if ea[1] != eb[1] and abs(ea[1] - eb[1]) <= Fraction(1, 10 ** 9) * scale:
+                    continue        # a rounding tie
+                if ea[1] == eb[1] and ua is not ub:
+                    continue        # equal through a conversion: a tie as well
+            want = "<" if ea < eb else ">" if ea > eb else "=="
+            if not r[want]:
+                bad.append(("extreme:order:%s" % ("infinite" if inf in (abs(ma), abs(mb)) else "finite"), "%s: expected %s, got %s" % (what, want, r)))
+    return {"n": n, "bad": bad}
 
 
 def _sorted_child(system, seed, n):
